@@ -168,3 +168,126 @@ hdwallet::verif_harness! {
     #[kani::unwind(12)]
     fn c19_roundtrip_3() { check_roundtrip::<3>() }
 }
+
+// ------------------------------------------------------------------------------------------------
+// hdwallet's own part of the decoder (whitespace filter, optional prefix) with the dependency's
+// `hex::decode` abstracted: the stub records the text it is handed and returns an arbitrary verdict.
+static mut HEX_IN: [u8; 16] = [0; 16];
+static mut HEX_IN_LEN: usize = 0;
+static mut HEX_CALLS: usize = 0;
+static mut HEX_OK: bool = false;
+static mut HEX_OUT: [u8; 2] = [0; 2];
+fn hex_decode_stub<T: AsRef<[u8]>>(data: T) -> core::result::Result<Vec<u8>, ::hex::FromHexError> {
+    let d = data.as_ref();
+    unsafe {
+        HEX_CALLS += 1;
+        HEX_IN_LEN = d.len();
+        assert!(d.len() <= 16);
+        hdwallet::__verif_common::copy_bytes_sym::<1>(&mut HEX_IN, d);
+        let ok: bool = kani::any();
+        HEX_OK = ok;
+        if ok {
+            let out: [u8; 2] = kani::any();
+            HEX_OUT = out;
+            Ok(out.to_vec())
+        } else {
+            Err(::hex::FromHexError::OddLength)
+        }
+    }
+}
+
+fn check_filter(text: &[u8], skip: &[bool]) {
+    let s = unsafe { core::str::from_utf8_unchecked(text) };
+    unsafe { HEX_CALLS = 0; }
+    let got = permissive_hex(s);
+    // expected text handed to the decoder
+    let mut kept = [0u8; 16];
+    let mut nk = 0;
+    let mut i = 0;
+    while i < text.len() {
+        if !skip[i] && !ascii_ws(text[i]) {
+            kept[nk] = text[i];
+            nk += 1;
+        }
+        i += 1;
+    }
+    let start = if nk >= 2 && kept[0] == b'0' && kept[1] == b'x' { 2 } else { 0 };
+    unsafe {
+        assert!(HEX_CALLS == 1, "exactly one decode of the filtered text");
+        assert!(HEX_IN_LEN == nk - start, "text handed to the decoder has the wrong length");
+        let mut i = 0;
+        while i < 16 {
+            if i < nk - start {
+                assert!(HEX_IN[i] == kept[start + i], "whitespace filter / prefix stripping changed the digits");
+            }
+            i += 1;
+        }
+        kani::cover!(start == 2 && nk > 2, "prefix stripped");
+        kani::cover!(start == 0 && nk == text.len() && nk > 0, "nothing to strip");
+        kani::cover!(nk + 2 <= text.len(), "whitespace removed");
+        match &got {
+            Ok(bytes) => {
+                assert!(HEX_OK, "decoder error swallowed");
+                assert!(bytes.len() == 2 && bytes[0] == HEX_OUT[0] && bytes[1] == HEX_OUT[1], "decoded bytes changed");
+            }
+            Err(_) => assert!(!HEX_OK, "decoder result dropped"),
+        }
+    }
+    core::mem::forget(got);
+}
+
+fn check_filter_ascii<const N: usize>() {
+    let text: [u8; N] = kani::any();
+    let mut i = 0;
+    while i < N {
+        kani::assume(text[i] < 0x80);
+        i += 1;
+    }
+    check_filter(&text, &[false; N]);
+}
+macro_rules! filter_harness {
+    ($($name:ident = $n:expr, $u:expr;)*) => {$(
+        hdwallet::verif_harness! {
+            #[kani::stub(::hex::decode, hex_decode_stub)]
+            #[kani::unwind($u)]
+            fn $name() { check_filter_ascii::<$n>() }
+        }
+    )*};
+}
+filter_harness! {
+    c19_filter_ascii_0 = 0, 18; c19_filter_ascii_2 = 2, 18; c19_filter_ascii_3 = 3, 18; c19_filter_ascii_4 = 4, 18;
+    c19_filter_ascii_5 = 5, 18; c19_filter_ascii_6 = 6, 18; c19_filter_ascii_8 = 8, 18;
+}
+
+// Unicode whitespace (U+2003, three bytes) at a symbolic position among four ASCII bytes
+hdwallet::verif_harness! {
+    #[kani::stub(::hex::decode, hex_decode_stub)]
+    #[kani::unwind(18)]
+    fn c19_filter_unicode_ws() {
+        let a: [u8; 4] = kani::any();
+        let pos: usize = kani::any();
+        kani::assume(pos <= 4);
+        let mut text = [0u8; 7];
+        let mut skip = [false; 7];
+        let mut i = 0;
+        let mut o = 0;
+        while i <= 4 {
+            if i == pos {
+                text[o] = 0xe2;
+                text[o + 1] = 0x80;
+                text[o + 2] = 0x83;
+                skip[o] = true;
+                skip[o + 1] = true;
+                skip[o + 2] = true;
+                o += 3;
+            }
+            if i < 4 {
+                kani::assume(a[i] < 0x80);
+                text[o] = a[i];
+                o += 1;
+            }
+            i += 1;
+        }
+        check_filter(&text, &skip);
+    }
+}
